@@ -13,7 +13,7 @@ LEAN_PROPS = "Dashu.Props.C14"
 LEAN_AUDIT = "Dashu.Audit.C14"
 # Tie A, typed translator: float/src/cmp.rs and rational/src/cmp.rs regenerated and proved equal to `Model/Cross/Ord.lean`
 USES_GEN = True
-GEN_PROPS = ["Dashu.Props.GenFloatCmp", "Dashu.Props.GenRatCmp", "Dashu.Props.C14Link", "Dashu.Props.C14EstNoStd"]
+GEN_PROPS = ["Dashu.Props.GenFloatCmp", "Dashu.Props.GenRatCmp", "Dashu.Props.C14Link", "Dashu.Props.C14EstNoStd", "Dashu.Props.C14I128"]
 GEN_AUDIT = ["Dashu.Audit.GenFloatCmp", "Dashu.Audit.GenRatCmp", "Dashu.Audit.C14Ext"]
 
 M127 = (1 << 127) - 1
@@ -675,36 +675,15 @@ def _fp(a):
     sg, e = normalize(B, sg, e)
     return (B, sg, e, p, ndigits(B, sg))
 
-def kf_float_cmp_overflow(op, args, impl):
-    """float/src/cmp.rs repr_cmp_same_base cases 4/5 (`rhs_exp + rhs_prec as isize`, `rhs_exp + rhs_digits as isize` and mirror
-    images): two finite non-zero FBigs of one base (of equal sign for Ord) one of which has a precision >= 2^63 (`as isize` goes
-    negative) or exponent + max(precision, digits_ub) > isize::MAX (the isize sum overflows); same class as the C05 entry"""
-    if op not in ("ordcmp", "abscmp") or len(args) != 2:
-        return False
-    a, b = _fp(args[0]), _fp(args[1])
-    if a is None or b is None or a[0] != b[0]:
-        return False
-    if op == "ordcmp" and (a[1] < 0) != (b[1] < 0):
-        return False
-    if impl.startswith("panic") and not ("float/src/cmp.rs" in impl and "attempt_to_add_with_overflow" in impl):
-        return False
-    return any(x[3] >= 1 << 63 or x[2] + max(x[3], x[4] + 1) > ISZ_MAX for x in (a, b))
-
-def kf_numhash_min_exponent(op, args, impl):
-    """NumHash for Repr<B> with exponent == isize::MIN (finite non-zero): `-self.exponent` / `absm` negate overflow"""
-    if op not in ("numhash", "hasheq"):
-        return False
-    if not (impl.startswith("panic") and "attempt_to_negate_with_overflow" in impl):
-        return False
-    return any((_fp(a) or (0, 0, 0))[2] == -(1 << 63) for a in args)
-
 # ----------------------------------------------------------------------------- texts
 
 REFINED = [
     "float/src/cmp.rs repr_cmp_ubig::<B,false>, repr_cmp_ibig::<B,false> (sign -> log2-bound filter -> exact scaling), for every sound oracle",
-    "float/src/cmp.rs repr_cmp_same_base::<B,ABS> (Ord / AbsOrd for FBig: infinities, signs, zeros, exponent+precision and exponent+digits shortcuts, aligned exact step)",
+    "float/src/cmp.rs repr_cmp_same_base::<B,ABS> (Ord / AbsOrd for FBig: infinities, signs, zeros, exponent+precision shortcut with the precisions clamped to "
+    "isize::MAX as in /repo ee43486 (isizeMax; PrecOK is stated for the clamped precision), exponent+digits shortcut, aligned exact step); the saturating_add of "
+    "cases 4/5 is the exact Int sum in the model, proved decision-equal for isize-range exponents (saturating_shortcut_exact)",
     "float/src/cmp.rs repr_cmp_ubig/ibig::<B,true> (AbsOrd FBig x UBig/IBig, any signs)",
-    "float/src/third_party/num_order.rs NumOrd<Repr<B2>> for Repr<B1> (any two bases), NumOrd<f32/f64> for Repr<B> (bit-length bounds in i128)",
+    "float/src/third_party/num_order.rs NumOrd<Repr<B2>> for Repr<B1> (any two bases), NumOrd<f32/f64> for Repr<B> (bit-length bounds in i128: the text with every i128 operation in two's complement is proved equal to the Int model for every isize exponent, Word base, significand below 2^64 bits and decoded f32/f64 -- Props/C14I128.repr_num_ord_float_i128: no i128 operation overflows)",
     "integer/src/third_party/num_order.rs NumOrd between UBig/IBig and each other, all primitive integers, f32/f64",
     "rational/src/cmp.rs repr_cmp::<ABS>, repr_eq::<ABS>, repr_cmp_ubig/ibig::<ABS>, with_float::repr_cmp_fbig::<B,ABS>",
     "rational/src/third_party/num_order.rs NumOrd<f32/f64> for Repr, the dispatch table of all implemented pairs",
@@ -738,9 +717,10 @@ FRONTIER = [
     "theorems; the enclosure hypothesis is checked on the real code per generated input by the harness op log2encl (certified integer interval arithmetic), "
     "not proved. Reason: log2f cannot be specified; the float estimator computes its bounds in f64 and casts to f32 before the outward step, which needs a "
     "grid-level model of binary32/binary64 double rounding (the relative-error facts of F32.Ax, enough for the integer and rational estimators, do not carry it)",
-    "machine-integer overflow of the isize/usize exponent and precision arithmetic (cmp.rs `rhs_exp + rhs_prec as isize`, num_order.rs `-self.exponent`): the model is "
-    "over unbounded Int/Nat, the overflow behaviour is not mirrored; the extremes are driven by the generator (gen_extreme) and the two input classes where the code "
-    "fails are recorded findings (precision >= 2^63 or exponent + max(precision, digits) > isize::MAX in Ord/AbsOrd of same-base FBigs; NumHash at exponent isize::MIN)",
+    "machine-integer width of the isize/usize exponent and precision arithmetic: the model is over unbounded Int/Nat. Since /repo ee43486 / a11f448 the code is total "
+    "there (cmp.rs saturating sums + precision clamp: clamp mirrored, saturation proved decision-equal to the exact sum for isize exponents; num_order.rs "
+    "rem_euclid / unsigned_abs = Int emod / natAbs); the i128 bit-length sums of NumOrd<f32/f64> for Repr<B> are proved overflow-free (Props/C14I128); the extremes are driven by gen_extreme, "
+    "no failing class is left (the two round-5 findings are `fixed:` lines, their witnesses run first)",
     "NumOrd between two FBigs whose exponents are both huge and whose values lie within the estimator's slack: the code's exact step materialises B^|e| (hang / "
     "OutOfMemory from |e| ~ 2^31); no executable model can run these either, they are not generated; the theorems (unbounded Int) still give the answer",
     "Tie A covers float/src/cmp.rs and rational/src/cmp.rs (GenFloatCmp, GenRatCmp); the three third_party/num_order.rs files are hand-mirrored and tied by "
@@ -767,7 +747,7 @@ EXPLANATION = ("Theorems (all inputs, no size bounds; for EVERY estimator satisf
                "incomparable, -0.0 = 0, infinities at the ends, i.e. the estimate path and the exact path cannot disagree; the whole dispatch table of "
                "implemented NumOrd / AbsOrd pairs is covered by FULL theorems (num_ord_exact, num_eq_exact, abs_ord_exact, ord_exact). NumHash: every "
                "impl feeds hashQ(value) in Z/(2^127-1) (prime, proved by Lucas-Lehmer), hence equal values of any two types feed the same i128 "
-               "(num_hash_value, full: non-reduced Relaxed included). The model mirrors /repo after the seven C14 fix commits; the pre-fix code is kept "
+               "(num_hash_value, full: non-reduced Relaxed included). The model mirrors /repo after the nine C14 fix commits (incl. ee43486 float cmp clamp, a11f448 NumHash at isize::MIN); the pre-fix code is kept "
                "as a separate model only for labelled as-is statements (prefix_*) of the repaired defects. The driver runs the model with a bit-length "
                "oracle, a never-filtering oracle and the no_std table estimator with exact arithmetic as a third oracle (all three proved sound) and against the "
                "specification on every case; big-integer comparisons run through C05's mirrored word-level cmp (Props/C14Link). The enclosure hypothesis itself "
@@ -777,9 +757,8 @@ ASSUMPTIONS = [
     "big-integer Ord, shifts, products and powers compute their mathematical values (C01/C05/C09)",
     "Hasher::write_i128 forwards 16 native-endian bytes to write (observed by the recording hasher); u128::mulm computes a*b mod m",
     "FBig operands respect their constructors' invariants: significand 0 only with exponent 0 / +-1, digits <= precision (+1) when the precision is limited",
-    "i128 arithmetic of the bit-length estimates does not overflow (|exponent| < 2^63, bit_len(B) <= 64)",
-    "isize/usize arithmetic on exponents and precisions does not overflow: precision < 2^63, exponent + max(precision, digits_ub) <= isize::MAX, exponent > isize::MIN "
-    "(outside: the two recorded findings); exact steps fit in memory",
+    "a significand has at most 2^63 digits (PrecOK for a precision above isize::MAX, which repr_cmp_same_base clamps: no Repr in memory has more); exponents are isize "
+    "(the saturating sums then decide as the exact sums); exact steps fit in memory",
     "Props/C14EstNoStd: the IEEE-754 binary32 facts F32.Ax (next_down/next_up outward, round-to-nearest returns a neighbour, relative error <= 2^-24 in the normal "
     "range, k*2^-j exact for k < 2^24); word size >= 32",
 ]
@@ -798,7 +777,7 @@ THEOREMS = ["Dashu.Props.C14." + n for n in (
     "filter_sound coarse_sound noFilter_sound float_cmp_ubig float_cmp_ibig float_cmp_float "
     "ratio_cmp_ubig ratio_cmp_ibig ratio_cmp_float ratio_cmp_ratio ratio_eq_ratio num_ord_exact "
     "num_eq_exact num_ord_oracle_independent ubig_cmp_prim_float ibig_cmp_prim_float float_cmp_prim_float ratio_cmp_prim_float "
-    "decoded_in_range abs_ord_exact float_abs_cmp_ubig float_abs_cmp_ibig prim_abs_cmp float_abs_cmp_same_base "
+    "decoded_in_range abs_ord_exact float_abs_cmp_ubig float_abs_cmp_ibig prim_abs_cmp float_abs_cmp_same_base saturating_shortcut_exact precision_clamp_id "
     "ord_exact ratio_abs_cmp_ratio ratio_abs_cmp_float mersenne127_prime num_hash_value num_hash_inf "
     "mersenne_reduce_single mersenne_reduce_double mersenne_mul mersenne_pow mersenne_inv num_hash_mirrored "
     "num_hash_value_mirrored hash_is_function_of_value rat_hash_eq_body prefix_num_ord_zero prefix_num_ord_inf prefix_abs_ord_ubig "
@@ -807,7 +786,8 @@ THEOREMS = ["Dashu.Props.C14." + n for n in (
     "ubig_cmp_ibig_mirrored ibig_cmp_ubig_mirrored num_partial_cmp_mirrored num_eq_mirrored abs_cmp_mirrored ord_cmp_mirrored "
     "num_ord_exact_words abs_ord_exact_words ord_exact_words exact_step_is_mirrored_cmp").split()] + ["Dashu.Props.C14EstNoStd." + n for n in (
     "u8_encloses prim_encloses large_encloses nat_encloses rat_encloses oracle_sound_of_float_part exact_arithmetic_meets_ax "
-    "table_oracle_sound num_ord_exact_table_path").split()]
+    "table_oracle_sound num_ord_exact_table_path").split()] + ["Dashu.Props.C14I128." + n for n in (
+    "wrapI128_id decode_small mul_range repr_num_ord_float_i128 repr_num_ord_float_i128_decode").split()]
 TECHNIQUE = "Lean 4 theorems over an executable mirrored model with estimate-oracle parameters + differential correspondence model vs real code"
 JOBS = 14
 READY = True
